@@ -1638,3 +1638,9 @@ for _i in (1, 2, 3, 4, 5, 6, 7, 8, 10, 11, 12, 13, 14, 15, 16, 17, 18, 19, 20):
 for _i in (1, 2, 3, 4, 5, 6, 7, 8, 10, 11, 12, 13, 14, 15, 16, 17, 18, 19, 20):
     VARIANTS.append(dict(id="local-snapshots-c%02d" % _i, prop="C%02d" % _i, expect="undecided", rule=None, edits=[("@local_snapshots",)],
                          what="`A_ = A.copy()` and A_ read wherever A stood, in every utils function that only reads its matrix parameter: accepted or undecided, never an alarm"))
+for _i in (1, 2, 3, 4, 5, 6, 7, 8, 10, 11, 12, 13, 14, 15, 16, 17, 18, 19, 20):
+    VARIANTS.append(dict(id="reorder-defs-c%02d" % _i, prop="C%02d" % _i, expect="silent", rule=None, edits=[("@reorder_defs",)],
+                         what="module-level functions and methods defined in another order: nothing any check reads depends on it"))
+for _i in (1, 2, 3, 4, 5, 6, 7, 8, 10, 11, 12, 13, 14, 15, 16, 17, 18, 19, 20):
+    VARIANTS.append(dict(id="validate-inputs-c%02d" % _i, prop="C%02d" % _i, expect="undecided", rule=None, edits=[("@validate_inputs",)],
+                         what="a squareness check raising ValueError at the top of every utils function with a matrix parameter: accepted or undecided, never an alarm"))
